@@ -741,7 +741,7 @@ PROPS = {
         "assumptions": ["the theorem is about Renamer::rename_with_raw_names; the ParsedPacket wrapper re-parses its result (accepted by the theorem) and asserts the EDNS summary is unchanged - that assert is covered by correspondence (C08 scripts), not by this theorem"],
     },
     "C08": {
-        "module": "DnsModel.Theorems.C08Seq", "theorems": ["Dns.C08.run_total", "Dns.C08.step_total", "Dns.C08.run_inv", "Dns.C08.step_inv", "Dns.C08.inv_start", "Dns.C08.consistent_view", "Dns.C08.consistent_counts", "Dns.C08.after_decompression", "Dns.C08.recompute_consistent", "Dns.C08.iter_uncompress_consistent", "Dns.C08.first_touch_consistent", "Dns.C08.insert_answer_consistent", "Dns.C08.insert_authority_consistent", "Dns.C08.insert_additional_consistent", "Dns.C08.delete_consistent", "Dns.C08.set_ttl_consistent", "Dns.C08.set_ip_consistent", "Dns.C08.set_name_consistent", "Dns.C08.header_consistent", "Dns.C08.rename_fresh", "Dns.C08.question_read", "Dns.C08.PlainObj.pointerFree", "Dns.EdnsOK.matches_parse", "Dns.PlainObj.parse_info", "Dns.ednsOf_of_run", "Dns.ednsOK_replace", "Dns.ednsOK_remove", "Dns.ednsOK_remove_opt", "Dns.C08.source_counts_tie", "Dns.C08.source_insert_rr"],
+        "module": "DnsModel.Theorems.C08Seq", "theorems": ["Dns.C08.run_total", "Dns.C08.step_total", "Dns.C08.run_inv", "Dns.C08.step_inv", "Dns.C08.inv_start", "Dns.C08.consistent_view", "Dns.C08.consistent_counts", "Dns.C08.after_decompression", "Dns.C08.recompute_consistent", "Dns.C08.iter_uncompress_consistent", "Dns.C08.first_touch_consistent", "Dns.C08.insert_answer_consistent", "Dns.C08.insert_authority_consistent", "Dns.C08.insert_additional_consistent", "Dns.C08.delete_consistent", "Dns.C08.set_ttl_consistent", "Dns.C08.set_ip_consistent", "Dns.C08.set_name_consistent", "Dns.C08.header_consistent", "Dns.C08.rename_fresh", "Dns.C08.question_read", "Dns.C08.PlainObj.pointerFree", "Dns.EdnsOK.matches_parse", "Dns.PlainObj.parse_info", "Dns.ednsOf_of_run", "Dns.ednsOK_replace", "Dns.ednsOK_remove", "Dns.ednsOK_remove_opt", "Dns.C08.source_counts_tie", "Dns.C08.source_insert_rr", "Dns.C08.source_recompute"],
         "families": [{"name": "script-boundary", "quick": 0, "thorough": 0, "fixed": True}, {"name": "rename-script", "quick": 0, "thorough": 0, "fixed": True}, {"name": "script-rawinsert", "quick": 0, "thorough": 0, "fixed": True}, {"name": "script", "quick": 2500, "thorough": 100000}],
         "oracle": oracle_c08, "nontrivial": nontrivial_script, "shrink": False,
         "rule": "scripts of 1-6 macro operations (open/advance/act/observe/advance, header setters, text insertion, question insertion, rename, recompute, cache reads) over accepted packets in 4 layouts with/without OPT and over empty(); state observed after every operation; non-trivial = distinct scripts with at least one successful mutating operation",
